@@ -301,9 +301,16 @@ def _chain(x, k):
     x = z3.simplify(x)
     views = P.__dict__.setdefault("_bitview", {})
     key = x.get_id()
+    own = P.__dict__.setdefault("_bitview_owner", {}).get(key)
+    if own is not None:
+        # x is itself a shifted view (base >> off): share the base term's chain
+        base, off = own
+        bv = _chain(views[base]["x"], k + off)
+        return dict(x=x, q=bv["q"][off:], b=bv["b"][off:])
     if key not in views:
         views[key] = dict(x=x, q=[x], b=[])
     v = views[key]
+    owner = P.__dict__.setdefault("_bitview_owner", {})
     while len(v["b"]) <= k:
         i = len(v["b"])
         b = P.fresh("bit%d" % i)
@@ -312,6 +319,7 @@ def _chain(x, k):
         P.axiom(v["q"][i] == 2 * q + b)
         v["b"].append(b)
         v["q"].append(q)
+        owner[q.get_id()] = (key, i + 1)       # q is (x >> (i+1)): its bits are bits of x
     return v
 
 
